@@ -49,7 +49,7 @@ def tlc(module, cfg, wd, env=None, workers=NCPU, timeout=1800, extra=(), simulat
     if env:
         e.update({k: str(v) for k, v in env.items()})
     if java_opts:
-        e["JAVA_TOOL_OPTIONS"] = java_opts
+        e["JAVA_TOOL_OPTIONS"] = (e.get("JAVA_TOOL_OPTIONS", "") + " " + java_opts).strip()
     try:
         p = subprocess.run(cmd, cwd=SPEC, env=e, stdout=subprocess.PIPE, stderr=subprocess.STDOUT,
                            timeout=timeout, text=True)
